@@ -186,6 +186,34 @@ def correspondence(ctx):
 
 # ---------------------------------------------------------------------------------------------------
 
+def anchor_violation(name, log, x0):
+    """Backtracking halves the step FROM THE CURRENT ITERATE: consecutive trial points t_k = x + c^k dx of one iteration satisfy 2 t_{k+1} - t_k = x, where x
+    is the last accepted point (the starting point before the first acceptance).  Recovered from the recorded evaluation points only.
+    Broyden accepts every trial whose evaluation succeeds; Newton's iterations are separated by its Jacobian evaluations, the accepted trial being the last one."""
+    cur = np.array(x0, dtype=float)
+    prev, last_trial, first = None, None, True
+    for ph, x, yv in log:
+        if ph != 'trial':
+            if last_trial is not None:           # Newton: the iteration ended, its last trial was accepted
+                cur, last_trial = last_trial, None
+            prev = None
+            continue
+        if first:
+            first = False
+            if np.array_equal(x, cur):
+                continue                          # the initial residual evaluation at x0
+        if prev is not None:
+            anchor = 2 * x - prev
+            if np.abs(anchor - cur).max() > 1e-7 * max(1.0, np.abs(cur).max(), np.abs(prev - cur).max()):
+                return dict(why='the halved trial is anchored elsewhere', anchor=anchor.tolist(), current_iterate=cur.tolist(), trial=x.tolist(), previous_trial=prev.tolist())
+        if name == 'broyden_solver' and yv is not None:
+            cur, prev = x.copy(), None
+        else:
+            prev = x.copy()
+            last_trial = x.copy() if yv is not None else last_trial
+    return None
+
+
 def check_solver(rng, nr, fixed=None):
     if fixed is None:
         f, x0, desc = make_system(rng, nr)
@@ -197,6 +225,10 @@ def check_solver(rng, nr, fixed=None):
         f, x0 = system_from_desc(desc), np.array(desc['start'])
     out, log = run_solver(name, f, x0, tol, maxcount)
     inp = dict(kind='solver', solver=name, tol=tol, maxcount=maxcount, system=desc)
+    av = anchor_violation(name, log, x0)
+    if av is not None:
+        return dict(what=f'{name}: a backtracking trial point is not on the segment from the CURRENT iterate (last accepted point) along the step: ' + av['why'], input=inp,
+                    observed=av, signature=dict(op='backtrack-anchor', solver=name))
     if out[0] == 'other':
         if 'invalid region' in out[1]:
             return None           # the residual's own error escaped from the (unprotected) finite-difference Jacobian: loud, not a silent return
